@@ -219,6 +219,13 @@ def check(ctx):
             if quick and cls[name] == 'whitespace':
                 continue
             tasks.append(('host:%s:%s=%s:p%d' % (hname, name, val, -10 - h), -10 - h, {name: val}))
+        # every pair of code-modifying (option, value)s: two passes that each look right can undo each other's work
+        if hname in ('c-plain', 'cpp-plain') or not quick:
+            cm = [(n, v) for n, v in sweep if cls[n] == 'code_modifying']
+            for ai, (n1, v1) in enumerate(cm):
+                for n2, v2 in cm[ai + 1:]:
+                    if n1 != n2:
+                        tasks.append(('hostpair:%s:%s=%s+%s=%s:p%d' % (hname, n1, v1, n2, v2, -10 - h), -10 - h, {n1: v1, n2: v2}))
         for k in range(10 if quick else 100):
             jr = fixed_rng(PROP, 'hostjoint:%s:%d' % (hname, k + (0 if quick else 10)))
             tasks.append(('hostjoint:%s:%d:p%d' % (hname, k, -10 - h), -10 - h, cfggen.joint(opts, jr, pool=pool)))
